@@ -55,7 +55,11 @@ def make_ids(kind, n):
         return list(range(n))
     if kind == 1:
         return ["dev-%d.sim" % i for i in range(n)]
-    return [("/old/host%d.cfg" % i, "/new/host%d.cfg" % i) for i in range(n)]
+    if kind == 2:
+        return [("/old/host%d.cfg" % i, "/new/host%d.cfg" % i) for i in range(n)]
+    # long path pairs: a few dozen of them outgrow a pipe buffer
+    deep = "/".join("dir%02d-%s" % (k, "x" * 24) for k in range(60))
+    return [("/old/%s/host%d.cfg" % (deep, i), "/new/%s/host%d.cfg" % (deep, i)) for i in range(n)]
 
 
 class Engine:
@@ -244,7 +248,7 @@ class Engine:
         par = 1 + ch.draw(8, "parallel")
         max_tasks = ch.pick([0, 1, 1, 2, 2, 3, 5, 25], "max_tasks") if on["retire"] else ch.pick([0, 25], "max_tasks")
         net_retry = ch.draw(4, "net_retry")
-        idkind = ch.draw(3, "idkind")
+        idkind = ch.draw(4, "idkind")
         ids = make_ids(idkind, n)
         durs = [ch.pick([0.0, 0.0, 0.3, 0.95, 1.0, 1.05, 2.5, 7.0], "dur") for _ in range(n)]
         raising = set(i for i in range(n) if on["raise"] and ch.draw(5, "raises") == 0)
@@ -422,7 +426,7 @@ class Engine:
             fire(probes, "empty_poll")
         multi = n >= 2 and par >= 2
         scenario = {"n": n, "parallel": par, "max_tasks": max_tasks, "net_retry": net_retry, "task_timeout": task_timeout,
-                    "ids": "int" if idkind == 0 else "str" if idkind == 1 else "path-tuple", "durations": durs,
+                    "ids": ["int", "str", "path-tuple", "long-path-tuple"][idkind], "durations": durs,
                     "raising": sorted(raising), "unpicklable_results": sorted(unpick), "transient": transient, "nested_net_exc": nested, "tolerate_fails": tolerate,
                     "api": "irun" if use_irun else "run", "consumer_delays": cons, "callbacks": cbmode, "callback_delays": cbdelay,
                     "callback_raises": sorted(cbraise), "task_returns_generator": as_gen, "delays": cfg, "strategy": strategy,
